@@ -199,7 +199,7 @@ impl Monitor for SolvencyMonitor {
                     self.crossing_seen = true;
                 }
             }
-        } else if !matches!(op, Op::AdvanceClock(_)) {
+        } else if !matches!(op, Op::AdvanceClock(_) | Op::AdvanceEpoch(_) | Op::SetTransferFee { .. }) {
             self.run_user = None;
         }
         if self.crossing_seen && matches!(op, Op::Decrease { .. } | Op::CollectFees { .. } | Op::CollectProtocolFees { .. } | Op::Reposition { .. }) {
@@ -209,7 +209,7 @@ impl Monitor for SolvencyMonitor {
         self.prefix_checks += 1;
         self.claims(h, post)?;
         // --- drain replay ---
-        if !matches!(op, Op::AdvanceClock(_) | Op::Open { .. } | Op::SetFeeRate(_) | Op::SetProtocolFeeRate(_)) {
+        if !matches!(op, Op::AdvanceClock(_) | Op::AdvanceEpoch(_) | Op::SetTransferFee { .. } | Op::Open { .. } | Op::SetFeeRate(_) | Op::SetProtocolFeeRate(_)) {
             self.pool_changes += 1;
             if self.pool_changes % self.drain_every.max(1) as u32 == 0 {
                 self.drain(h)?;
@@ -217,6 +217,167 @@ impl Monitor for SolvencyMonitor {
         }
         Ok(())
     }
+}
+
+// ---------------------------------------------------------------------------------------------------
+// pool-aware variants (worlds with several pools): used after two-hop swaps
+
+/// initialized ticks of one pool, found by scanning the bank for that pool's tick arrays (either encoding)
+pub fn pool_tick_map(w: &crate::world::World, pool: usize) -> BTreeMap<i32, TickD> {
+    let (pk, ts) = (w.pools[pool].key, w.pools[pool].tick_spacing as i32);
+    let mut m = BTreeMap::new();
+    for a in w.bank.accounts.values() {
+        if a.owner != crate::world::WP || a.data.len() < crate::decode::DYN_TICK_ARRAY_MIN_LEN {
+            continue;
+        }
+        let is_fixed = a.data[..8] == *<whirlpool::state::FixedTickArray as anchor_lang::Discriminator>::DISCRIMINATOR;
+        let is_dyn = a.data[..8] == *<whirlpool::state::DynamicTickArray as anchor_lang::Discriminator>::DISCRIMINATOR;
+        if !is_fixed && !is_dyn {
+            continue;
+        }
+        let Ok(d) = crate::decode::tick_array(&a.data) else { continue };
+        if d.whirlpool != pk {
+            continue;
+        }
+        for (i, t) in d.ticks.iter().enumerate() {
+            if t.initialized {
+                m.insert(d.start_tick_index + i as i32 * ts, t.clone());
+            }
+        }
+    }
+    m
+}
+
+/// claims inequality for one pool of a multi-pool world
+pub fn pool_claims(w: &crate::world::World, pool: usize) -> Result<(), String> {
+    let ticks = pool_tick_map(w, pool);
+    let st = w.pool_state(pool);
+    let mut claim_a = BigUint::from(st.protocol_fee_owed_a);
+    let mut claim_b = BigUint::from(st.protocol_fee_owed_b);
+    for (i, pi) in w.positions.iter().enumerate() {
+        if !pi.open || pi.pool != pool {
+            continue;
+        }
+        let Some(ps) = w.position_state(i) else { continue };
+        claim_a += ps.fee_owed_a;
+        claim_b += ps.fee_owed_b;
+        if ps.liquidity > 0 {
+            let (lo, hi) = (ps.tick_lower_index, ps.tick_upper_index);
+            let (wa, wb) = position_amounts(ps.liquidity, st.sqrt_price, sqrt_price_from_tick_index(lo), sqrt_price_from_tick_index(hi), false);
+            claim_a += wa;
+            claim_b += wb;
+            let tl = ticks.get(&lo).cloned().unwrap_or_default();
+            let tu = ticks.get(&hi).cloned().unwrap_or_default();
+            let ia = growth_inside(st.tick_current_index, lo, hi, st.fee_growth_global_a, tl.fee_growth_outside_a, tu.fee_growth_outside_a);
+            let ib = growth_inside(st.tick_current_index, lo, hi, st.fee_growth_global_b, tl.fee_growth_outside_b, tu.fee_growth_outside_b);
+            let pa = owed_delta(ps.liquidity, ia.wrapping_sub(ps.fee_growth_checkpoint_a));
+            let pb = owed_delta(ps.liquidity, ib.wrapping_sub(ps.fee_growth_checkpoint_b));
+            if pa.to_u64().is_some() {
+                claim_a += pa;
+            }
+            if pb.to_u64().is_some() {
+                claim_b += pb;
+            }
+        }
+    }
+    let (va, vb) = (w.balance(&w.pools[pool].vault_a), w.balance(&w.pools[pool].vault_b));
+    if BigUint::from(va) < claim_a {
+        return Err(format!("vault A holds {va} but claims on it sum to {claim_a}"));
+    }
+    if BigUint::from(vb) < claim_b {
+        return Err(format!("vault B holds {vb} but claims on it sum to {claim_b}"));
+    }
+    Ok(())
+}
+
+/// drain one pool of a multi-pool world on a clone (order keyed by `seed`); every step must succeed
+pub fn pool_drain(w0: &crate::world::World, pool: usize, treasury: usize, seed: u64) -> Result<u32, String> {
+    let mut w = w0.clone();
+    let mut order: Vec<usize> = (0..w.positions.len()).filter(|i| w.positions[*i].open && w.positions[*i].pool == pool).collect();
+    let mut x = seed | 1;
+    let mut next = || {
+        x ^= x << 13;
+        x ^= x >> 7;
+        x ^= x << 17;
+        x
+    };
+    for i in (1..order.len()).rev() {
+        let j = (next() % (i as u64 + 1)) as usize;
+        order.swap(i, j);
+    }
+    let pl = w.pools[pool].clone();
+    let v2 = pl.mint_a.program != crate::world::TOKEN || pl.mint_b.program != crate::world::TOKEN;
+    let (da, db) = (w.user_token_existing(treasury, &pl.mint_a.key), w.user_token_existing(treasury, &pl.mint_b.key));
+    let mut steps = 0u32;
+    let mut step = |w: &mut crate::world::World, what: &str, ix: solana_program::instruction::Instruction| -> Result<(), String> {
+        let o = w.exec(&ix);
+        if !o.ok() {
+            return Err(format!("drain step `{what}` failed with {:?} (logs: {:?})", o.result, o.logs.iter().rev().take(2).collect::<Vec<_>>()));
+        }
+        Ok(())
+    };
+    let proto_first = next() % 2 == 0;
+    if proto_first {
+        let ix = w.ix_collect_protocol_fees(pool, da, db, v2);
+        step(&mut w, "collect_protocol_fees", ix)?;
+        steps += 1;
+    }
+    for p in order {
+        let liq = w.position_state(p).map(|s| s.liquidity).unwrap_or(0);
+        if liq > 0 {
+            let ix = w.ix_update_fees(p);
+            step(&mut w, &format!("update_fees(position #{p})"), ix)?;
+            let ix = w.ix_decrease(p, liq, 0, 0, v2 || next() % 2 == 0);
+            step(&mut w, &format!("decrease_all(position #{p}, L={liq})"), ix)?;
+            steps += 2;
+        }
+        let ix = w.ix_collect_fees(p, v2 || next() % 2 == 0);
+        step(&mut w, &format!("collect_fees(position #{p})"), ix)?;
+        steps += 1;
+    }
+    if !proto_first {
+        let ix = w.ix_collect_protocol_fees(pool, da, db, v2);
+        step(&mut w, "collect_protocol_fees", ix)?;
+        steps += 1;
+    }
+    Ok(steps)
+}
+
+/// two pools sharing a mint, a generated history on each, then a two-hop swap (v1 / v2, both modes, optional price limits on either
+/// leg): after a successful two-hop BOTH pools must satisfy the claims inequality and survive a full drain
+pub fn check_two_hop_solvency(c: &super::c17::TwoHopCase, l: &mut Local) -> Result<(), String> {
+    let Some(s) = super::c17::setup(c, l) else { return Ok(()) };
+    if c.malformed != 0 {
+        return Ok(());
+    }
+    let mut w = s.h.w.clone();
+    // locked positions cannot be drained: this world never locks; the history engine's positions are all plain liquidity positions
+    for pool in [s.p_one, s.p_two] {
+        pool_claims(&w, pool).map_err(|e| format!("harness: before the two-hop, pool {pool}: {e}"))?;
+    }
+    let ix = w.ix_two_hop(s.p_one, s.p_two, s.user, &s.params, s.v2);
+    let o = w.exec(&ix);
+    if !o.ok() {
+        l.count(&format!("two_hop_rejected/{}", o.code().unwrap_or(0)));
+        return Ok(());
+    }
+    for (leg, pool) in [(1, s.p_one), (2, s.p_two)] {
+        pool_claims(&w, pool).map_err(|e| format!("after two-hop {:?} (v2 {}): leg-{leg} pool: {e}", s.params, s.v2))?;
+        let n = pool_drain(&w, pool, s.h.treasury, hash_of(c) ^ leg as u64).map_err(|e| format!("after two-hop {:?} (v2 {}): leg-{leg} pool: {e}", s.params, s.v2))?;
+        l.count_n("drain_instructions", n as u64);
+    }
+    l.count(&format!("two_hop_ok/{}/{}", if s.params.exact_in { "in" } else { "out" }, if s.v2 { "v2" } else { "v1" }));
+    let limited = s.params.limit_one != 0 || s.params.limit_two != 0;
+    if limited {
+        l.count("two_hop_ok_with_price_limit");
+    }
+    let crossed = o.steps.iter().filter(|st| st.crossed_initialized_tick.is_some()).count();
+    if crossed > 0 {
+        l.count("two_hop_ok_with_crossing");
+    }
+    l.nontrivial(hash_of(c));
+    l.sample(|| json!({"spec1": c.hist1.spec, "spec2": c.spec2, "params": s.params, "v2": s.v2, "crossings": crossed}));
+    Ok(())
 }
 
 pub fn check_case(c: &SolvencyCase, l: &mut Local) -> Result<(), String> {
@@ -260,6 +421,24 @@ pub fn check_run_case(c: &SolvencyCase, l: &mut Local) -> Result<(), String> {
 fn case_strategy() -> BoxedStrategy<SolvencyCase> {
     (history_strategy(false, false, 40), any::<u64>(), prop_oneof![3 => Just(1u8), 1 => 2u8..5]).prop_map(|(hist, drain_seed, drain_every)| SolvencyCase { hist, drain_seed, drain_every }).boxed()
 }
+/// C17's two-pool cases, biased towards explicit price limits on the legs (partial fills of a leg)
+fn two_hop_case_strategy() -> BoxedStrategy<super::c17::TwoHopCase> {
+    (super::c17::case_strategy(), limit_strategy(), limit_strategy(), 0u8..4)
+        .prop_map(|(mut c, l1, l2, k)| {
+            c.malformed = 0;
+            match k {
+                0 => c.limit_one = l1,
+                1 => c.limit_two = l2,
+                2 => {
+                    c.limit_one = l1;
+                    c.limit_two = l2;
+                }
+                _ => {}
+            }
+            c
+        })
+        .boxed()
+}
 fn run_case_strategy() -> BoxedStrategy<SolvencyCase> {
     (swap_run_history_strategy(), any::<u64>()).prop_map(|(hist, drain_seed)| SolvencyCase { hist, drain_seed, drain_every: 3 }).boxed()
 }
@@ -271,13 +450,14 @@ pub fn def() -> CheckDef {
                vault_X >= protocol_fee_owed_X + sum_p(fee_owed + pending fees + floor(exact withdrawal)) computed with BigUint from independently decoded \
                accounts, (2) drain replay on a clone: update-fees, decrease-all, collect-fees for every position in a generated order interleaved with \
                collect-protocol-fees, every step must succeed (judge: the real SPL Token processor), (3) over every closed run of consecutive swaps by one \
-               trader the cumulative (dA, dB) is never >=0 in both with one >0.  Non-trivial history = >=2 positions, a swap crossing an initialized tick, \
+               trader the cumulative (dA, dB) is never >=0 in both with one >0; (4) two_hop_solvency: two pools sharing a mint, a generated history on each,                then a two-hop swap (v1 / v2, both modes, price limits on either leg): after a successful two-hop both pools satisfy (1) and survive (2).  Non-trivial history = >=2 positions, a swap crossing an initialized tick, \
                and a decrease/collect/reposition after it; non-trivial run = >=3 consecutive swaps.  Distinct = hash of the case.  Liquidity of an increase is \
                drawn by magnitude or as the exact inverse image of a token amount on a boundary of the u64 result type (0,1,2,2^32-1,2^32,2^63-1,2^63,2^64-2,2^64-1,2^64,2^64+1).",
         assumptions: vec!["nsvm runtime, shims and SPL processors as in DESIGN.md §5", "one instruction per transaction"],
         subs: vec![
             sub("histories", 8000, 150_000, case_strategy, |c: &SolvencyCase, l: &mut Local| check_case(c, l)),
             sub("swap_runs", 20_000, 500_000, run_case_strategy, |c: &SolvencyCase, l: &mut Local| check_run_case(c, l)),
+            sub("two_hop_solvency", 20_000, 500_000, two_hop_case_strategy, |c: &super::c17::TwoHopCase, l: &mut Local| check_two_hop_solvency(c, l)),
         ],
     }
 }
